@@ -93,4 +93,35 @@ theorem withJSONExt_spec :
 example : ([46, 106, 115, 111, 110] : Text) = Generated.saJSONExt := by decide
 end
 
+/-! ## Config options (snaps/snapshot.go `Update`, `Filename`, `Dir`, `Ext`, `WithConfig`)
+
+An option is a function `Cfg → Cfg` (the Go closure writes one field of the Config it is handed).
+`WithConfig` starts from the package default and applies the options in order: the Config it returns
+depends on its arguments only — property C12 "Configs built by WithConfig are independent of each
+other and of the package-level defaults". -/
+
+theorem Update_eq (u : Bool) (c : Cfg) : Update u c = { c with update := some u } := rfl
+theorem Filename_eq (n : Text) (c : Cfg) : Filename n c = { c with filename := n } := rfl
+theorem Dir_eq (d : Text) (c : Cfg) : Dir d c = { c with snapsDir := d } := rfl
+theorem Ext_eq (e : Text) (c : Cfg) : Ext e c = { c with extension := e } := rfl
+
+theorem forIn_apply_opts (opts : List (Cfg → Cfg)) (c : Cfg) :
+    forIn (m := Id) opts c (fun o r => pure (ForInStep.yield (o r))) = pure (opts.foldl (fun c o => o c) c) := by
+  induction opts generalizing c with
+  | nil => rfl
+  | cons o os ih => simp [ih]
+
+/-- **`WithConfig` is a fold over its arguments, starting from the default Config** -/
+theorem WithConfig_eq (opts : List (Cfg → Cfg)) : WithConfig opts = opts.foldl (fun c o => o c) {} := by
+  unfold WithConfig
+  simp only [Id.run, bind, pure]
+  have := forIn_apply_opts opts {}
+  simp only [pure] at this
+  exact this
+
+/-- later options win, field by field; an option leaves the other fields alone -/
+example : WithConfig [Dir [97], Filename [98], Dir [99]] = { filename := [98], snapsDir := [99] } := by decide
+example : (WithConfig [Update false]).update = some false ∧ (WithConfig [Update false]).snapsDir = Generated.defaultSnapsDir := by
+  decide
+
 end GoSnaps.Tie
